@@ -141,7 +141,7 @@ impl Judge {
                 "{}|{:?}|{}",
                 run.target.label(),
                 run.placement,
-                run.history.iter().map(|h| format!("{}:{:?}:{}", h.src.label(), h.entry, h.on_thread)).collect::<Vec<_>>().join(",")
+                run.history.iter().map(|h| format!("{}:{:?}:{}:{}", h.src.label(), h.entry, h.on_thread, h.ctx_variant)).collect::<Vec<_>>().join(",")
             )
             .as_bytes())
         );
@@ -225,6 +225,9 @@ fn shrink(run: &DetRun) -> (DetRun, u64) {
         try_it(c, &mut best, &mut steps, &mut j);
         let mut c = best.clone();
         c.history[k].entry = detsim::Entry::Mir;
+        try_it(c, &mut best, &mut steps, &mut j);
+        let mut c = best.clone();
+        c.history[k].ctx_variant = 0;
         try_it(c, &mut best, &mut steps, &mut j);
     }
     (best, steps)
